@@ -4,7 +4,7 @@
    a function of the drawn bits, storage model of [overwrite]), at T := R.
    Shape guards ([b_shape], [p_shape]: W is nh x nv, U is na x nv, biases of matching length) are
    what the constructors of BinaryRBM / PurificationRBM establish. *)
-From Coq Require Import List Reals.
+From Coq Require Import List Bool Reals.
 From QModel Require Import Num Bits Rbm States Gibbs.
 From QTheory Require Import RInst SumBits GibbsT.
 Import ListNotations.
@@ -102,6 +102,7 @@ Proof. exact p_invariant. Qed.
 Print Assumptions C05_invariance_one_step_purification.
 
 (* 4. laws of the k-step kernel (for any kernel K on length-nv states) *)
+(* definitional: restates the model *)
 Theorem C05_kpow_zero_is_identity : forall nv K s s',
   kpow ROps nv K 0 s s' = indicator ROps s s' /\
   indicator ROps s s = 1 /\ (s <> s' -> indicator ROps s s' = 0).
@@ -110,6 +111,7 @@ Proof.
 Qed.
 Print Assumptions C05_kpow_zero_is_identity.
 
+(* definitional: restates the model *)
 Theorem C05_kpow_one_is_kernel : forall nv K s s',
   length s' = nv -> kpow ROps nv K 1 s s' = K s s'.
 Proof. exact kpow_1. Qed.
@@ -162,6 +164,7 @@ Print Assumptions C05_kstep_law_purification.
 (* 5. the sampler requests exactly the model conditionals of the states produced by the earlier
    draws — hidden (then auxiliary) given the current visible state, then visible given those
    draws — exactly k times; k = 0 returns the start state (b_vis v0 draws 0 = v0) *)
+(* definitional: restates the model *)
 Theorem C05_sampler_uses_exact_conditionals_binary : forall (r : brbm) k v0 draws,
   length draws = (2 * k)%nat ->
   let res := b_gibbs_steps ROps r k v0 draws in
@@ -173,6 +176,7 @@ Theorem C05_sampler_uses_exact_conditionals_binary : forall (r : brbm) k v0 draw
 Proof. exact b_sampler_exact. Qed.
 Print Assumptions C05_sampler_uses_exact_conditionals_binary.
 
+(* definitional: restates the model *)
 Theorem C05_sampler_uses_exact_conditionals_purification : forall (r : prbm) k v0 draws,
   length draws = (3 * k)%nat ->
   let res := p_gibbs_steps ROps r k v0 draws in
@@ -186,11 +190,13 @@ Theorem C05_sampler_uses_exact_conditionals_purification : forall (r : prbm) k v
 Proof. exact p_sampler_exact. Qed.
 Print Assumptions C05_sampler_uses_exact_conditionals_purification.
 
+(* definitional: restates the model *)
 Theorem C05_zero_steps_return_start : forall (rb : brbm) (rp : prbm) v0 draws,
   b_gibbs_steps ROps rb 0 v0 draws = (v0, []) /\ p_gibbs_steps ROps rp 0 v0 draws = (v0, []).
 Proof. intros; split; reflexivity. Qed.
 Print Assumptions C05_zero_steps_return_start.
 
+(* definitional: restates the model *)
 Theorem C05_sampler_continued_binary : forall (r : brbm) j k v d1 d2,
   length d1 = (2 * j)%nat ->
   b_gibbs_steps ROps r (j + k) v (d1 ++ d2) =
@@ -199,6 +205,7 @@ Theorem C05_sampler_continued_binary : forall (r : brbm) j k v d1 d2,
 Proof. exact b_sampler_continue. Qed.
 Print Assumptions C05_sampler_continued_binary.
 
+(* definitional: restates the model *)
 Theorem C05_sampler_continued_purification : forall (r : prbm) j k v d1 d2,
   length d1 = (3 * j)%nat ->
   p_gibbs_steps ROps r (j + k) v (d1 ++ d2) =
@@ -207,32 +214,45 @@ Theorem C05_sampler_continued_purification : forall (r : prbm) j k v d1 d2,
 Proof. exact p_sampler_continue. Qed.
 Print Assumptions C05_sampler_continued_purification.
 
-(* 6. overwrite contract (storage model: a heap of cells, [hclone] allocates) *)
-Theorem C05_overwrite_false_contract : forall skip k hp src draws,
+(* 6. overwrite contract (storage model: a heap of cells, [hclone] allocates; [sd] = the start tensor
+   already has the parameters' dtype, so that [.to(self.weights)] is the identity and not a copy) *)
+(* definitional: restates the model *)
+Theorem C05_overwrite_false_contract : forall skip sd k hp src draws,
   (src < length hp)%nat ->
-  let res := gibbs_call skip false k hp src draws in
+  let res := gibbs_call skip false sd k hp src draws in
   snd res = length hp /\ snd res <> src /\
   (forall a, (a < length hp)%nat -> hread (fst res) a = hread hp a).
 Proof. exact overwrite_false_contract. Qed.
 Print Assumptions C05_overwrite_false_contract.
 
-Theorem C05_overwrite_true_contract : forall skip k hp src draws,
-  let res := gibbs_call skip true k hp src draws in
-  snd res = src /\ length (fst res) = length hp /\
-  (forall a, a <> src -> hread (fst res) a = hread hp a).
+(* overwrite = True, for EVERY dtype of the start tensor: after the call the caller's cell holds the
+   returned result ("updated in place"); no other cell of the caller's heap changes.  (For another dtype
+   the code updates a converted copy and writes it back at the end.) *)
+Theorem C05_overwrite_true_contract : forall skip sd k hp src draws,
+  (src < length hp)%nat ->
+  let res := gibbs_call skip true sd k hp src draws in
+  hread (fst res) src = hread (fst res) (snd res) /\
+  (forall a, (a < length hp)%nat -> a <> src -> hread (fst res) a = hread hp a).
 Proof. exact overwrite_true_contract. Qed.
 Print Assumptions C05_overwrite_true_contract.
 
-Theorem C05_call_result_binary : forall (r : brbm) ow k hp src draws,
+(* definitional: restates the model *)
+Theorem C05_overwrite_true_same_dtype_no_allocation : forall skip k hp src draws,
+  let res := gibbs_call skip true true k hp src draws in
+  snd res = src /\ length (fst res) = length hp.
+Proof. exact overwrite_true_same_dtype. Qed.
+Print Assumptions C05_overwrite_true_same_dtype_no_allocation.
+
+Theorem C05_call_result_binary : forall (r : brbm) ow sd k hp src draws,
   (src < length hp)%nat -> length draws = (2 * k)%nat ->
-  let res := b_gibbs_call ow k hp src draws in
+  let res := b_gibbs_call ow sd k hp src draws in
   hread (fst res) (snd res) = fst (b_gibbs_steps ROps r k (hread hp src) draws).
 Proof. exact b_call_result. Qed.
 Print Assumptions C05_call_result_binary.
 
-Theorem C05_call_result_purification : forall (r : prbm) ow k hp src draws,
+Theorem C05_call_result_purification : forall (r : prbm) ow sd k hp src draws,
   (src < length hp)%nat -> length draws = (3 * k)%nat ->
-  let res := p_gibbs_call ow k hp src draws in
+  let res := p_gibbs_call ow sd k hp src draws in
   hread (fst res) (snd res) = fst (p_gibbs_steps ROps r k (hread hp src) draws).
 Proof. exact p_call_result. Qed.
 Print Assumptions C05_call_result_purification.
